@@ -867,7 +867,8 @@ func writeCompatibilitySerializers(w *formatting.IndentedWriter, change dsl.Defi
 		case *dsl.RecordChange:
 			p := change.PreviousDefinition().(*dsl.RecordDefinition)
 			for i, field := range p.Fields {
-				tmpVarName := common.FieldIdentifierName(field.Name)
+				memberName := common.FieldIdentifierName(field.Name)
+				tmpVarName := compatTmpVarName(field.Name)
 				if change.FieldRemoved[i] {
 					// Field was removed: Read it and discard, or Write "default" value
 					tmpVarType := common.TypeSyntax(field.Type)
@@ -880,17 +881,17 @@ func writeCompatibilitySerializers(w *formatting.IndentedWriter, change dsl.Defi
 						fmt.Fprintf(w, "%s %s = {};\n", tmpVarType, tmpVarName)
 
 						if write {
-							writeTypeConversion(w, tc, fmt.Sprintf("value.%s", tmpVarName), tmpVarName, write)
+							writeTypeConversion(w, tc, fmt.Sprintf("value.%s", memberName), tmpVarName, write)
 							fmt.Fprintf(w, "%s(stream, %s);\n", typeRwFunction(tc.OldType(), write), tmpVarName)
 						} else {
 							fmt.Fprintf(w, "%s(stream, %s);\n", typeRwFunction(tc.OldType(), write), tmpVarName)
-							writeTypeConversion(w, tc, tmpVarName, fmt.Sprintf("value.%s", tmpVarName), write)
+							writeTypeConversion(w, tc, tmpVarName, fmt.Sprintf("value.%s", memberName), write)
 						}
 					} else {
-						fmt.Fprintf(w, "%s(stream, value.%s);\n", typeRwFunction(tc.OldType(), write), tmpVarName)
+						fmt.Fprintf(w, "%s(stream, value.%s);\n", typeRwFunction(tc.OldType(), write), memberName)
 					}
 				} else {
-					fmt.Fprintf(w, "%s(stream, value.%s);\n", typeRwFunction(field.Type, write), tmpVarName)
+					fmt.Fprintf(w, "%s(stream, value.%s);\n", typeRwFunction(field.Type, write), memberName)
 				}
 			}
 		case *dsl.NamedTypeChange:
@@ -898,7 +899,7 @@ func writeCompatibilitySerializers(w *formatting.IndentedWriter, change dsl.Defi
 			case *dsl.NamedType:
 				// prev := change.PreviousDefinition().(*dsl.NamedType)
 				if tc := change.TypeChange; tc != nil {
-					tmpVarName := common.FieldIdentifierName(prev.Name)
+					tmpVarName := compatTmpVarName(prev.Name)
 					if requiresExplicitConversion(tc) {
 						varType := common.TypeSyntax(tc.OldType())
 						fmt.Fprintf(w, "%s %s = {};\n", varType, tmpVarName)
@@ -1146,6 +1147,15 @@ func writeStepRw(w *formatting.IndentedWriter, stepType dsl.Type, target string,
 	}
 }
 
+// compatTmpVarName names the temporary that holds the old-version value of a field, step or
+// named type while it is converted. Model names never end in an underscore-separated suffix of
+// their own making (they are camelCased), so the result cannot be `value`, `values`, `stream`
+// or any other parameter or local of the generated function - the plain identifier of a step
+// called `value` shadowed the parameter and the converted data was silently lost.
+func compatTmpVarName(name string) string {
+	return common.FieldIdentifierName(name) + "_tmp"
+}
+
 func writeProtocolStep(w *formatting.IndentedWriter, step *dsl.ProtocolStep, changes map[string]dsl.TypeChange, isPlural bool, write bool) {
 	target := "value"
 	if isPlural {
@@ -1163,7 +1173,7 @@ func writeProtocolStep(w *formatting.IndentedWriter, step *dsl.ProtocolStep, cha
 					fmt.Fprintln(w, "values.clear();")
 				} else {
 					tmpVarType := common.TypeSyntax(step.Type)
-					tmpVarName := common.FieldIdentifierName(step.Name)
+					tmpVarName := compatTmpVarName(step.Name)
 					fmt.Fprintf(w, "%s %s = {};\n", tmpVarType, tmpVarName)
 					fmt.Fprintf(w, "value = std::move(%s);\n", tmpVarName)
 					if step.IsStream() {
@@ -1181,7 +1191,7 @@ func writeProtocolStep(w *formatting.IndentedWriter, step *dsl.ProtocolStep, cha
 
 			// Otherwise, we need to do explicit conversion for this ProtocolStep
 			if isPlural {
-				tmpVecName := common.FieldIdentifierName(step.Name)
+				tmpVecName := compatTmpVarName(step.Name)
 				tmpVecType := *change.OldType().(*dsl.GeneralizedType)
 				tmpVecType.Dimensionality = &dsl.Vector{}
 				fmt.Fprintf(w, "%s %s = {};\n", common.TypeSyntax(&tmpVecType), tmpVecName)
@@ -1202,7 +1212,7 @@ func writeProtocolStep(w *formatting.IndentedWriter, step *dsl.ProtocolStep, cha
 					}
 				}
 
-				tmpVarName := common.FieldIdentifierName(step.Name)
+				tmpVarName := compatTmpVarName(step.Name)
 				tmpVarType := common.TypeSyntax(change.OldType())
 				fmt.Fprintf(w, "%s %s = {};\n", tmpVarType, tmpVarName)
 
